@@ -132,6 +132,32 @@ theorem mode_of_class (a b : ℝ) :
     (∀ p, mkLogGaussian a b none none = some p → p.mode = .log) := by
   simp [mkUniform, mkLogUniform, mkGaussian, mkLogGaussian, Prior.mode]
 
+/-- a log-uniform prior given by linear bounds hands the model values from exactly `[min l, max l]`:
+    the end points come back as the linear bounds and the map `u ↦ prior(sample u)` is monotone -/
+theorem log_uniform_linear_range (l0 l1 : ℝ) (h0 : 0 < l0) (h1 : 0 < l1) (ppf : ℝ → ℝ) :
+    ∃ p, mkLogUniformLin l0 l1 = some p ∧ p.back (p.sample ppf 0) = min l0 l1 ∧ p.back (p.sample ppf 1) = max l0 l1 ∧
+      Monotone (fun u => p.back (p.sample ppf u)) := by
+  refine ⟨mkLogUniform (log10 l0) (log10 l1), by simp [mkLogUniformLin, log10?, h0, h1], ?_, ?_, ?_⟩
+  · simp only [mkLogUniform, Prior.sample, uniformPpf, Prior.back, Prior.mode, pyMin_real, pyMax_real]
+    rcases le_total l0 l1 with h | h
+    · rw [min_eq_left (log10_le_log10 l0 l1 h0 h), min_eq_left h]
+      simpa using pow10_log10 l0 h0
+    · rw [min_eq_right (log10_le_log10 l1 l0 h1 h), min_eq_right h]
+      simpa using pow10_log10 l1 h1
+  · simp only [mkLogUniform, Prior.sample, uniformPpf, Prior.back, Prior.mode, pyMin_real, pyMax_real]
+    rcases le_total l0 l1 with h | h
+    · rw [min_eq_left (log10_le_log10 l0 l1 h0 h), max_eq_right (log10_le_log10 l0 l1 h0 h), max_eq_right h]
+      have : (1 : ℝ) * (log10 l1 - log10 l0) + log10 l0 = log10 l1 := by ring
+      rw [this]; exact pow10_log10 l1 h1
+    · rw [min_eq_right (log10_le_log10 l1 l0 h1 h), max_eq_left (log10_le_log10 l1 l0 h1 h), max_eq_left h]
+      have : (1 : ℝ) * (log10 l0 - log10 l1) + log10 l1 = log10 l0 := by ring
+      rw [this]; exact pow10_log10 l0 h0
+  · intro u v huv
+    simp only [mkLogUniform, Prior.sample, uniformPpf, Prior.back, Prior.mode, pyMin_real, pyMax_real, pow10_real]
+    apply Real.rpow_le_rpow_of_exponent_le (by norm_num)
+    have hw : 0 ≤ max (log10 l0 : ℝ) (log10 l1) - min (log10 l0) (log10 l1) := sub_nonneg.2 min_le_max
+    nlinarith [mul_le_mul_of_nonneg_right huv hw]
+
 /-! ### Gaussian priors -/
 
 /-- with a positive width and a monotone standard-normal quantile function, `sample` is monotone (strictly if `ppf` is) -/
@@ -212,6 +238,10 @@ example : mkLogUniformLin (1 : ℝ) 100 = some (mkLogUniform (log10 1) (log10 10
   (log_lin_equiv 1 100).1 (by norm_num) (by norm_num)
 
 example : mkLogUniformLin (-1 : ℝ) 100 = none := (log_lin_equiv (-1) 100).2 (by norm_num)
+
+example : ∃ p, mkLogUniformLin (1e-12 : ℝ) 1e-2 = some p ∧ p.back (p.sample id 1) = max 1e-12 1e-2 := by
+  obtain ⟨p, h1, _, h3, _⟩ := log_uniform_linear_range 1e-12 1e-2 (by norm_num) (by norm_num) id
+  exact ⟨p, h1, h3⟩
 
 /-- a monotone `ppf` exists (the hypotheses of `gaussian_mono` / `gaussian_inverse_cdf` are satisfiable) -/
 example : StrictMono ((mkGaussian (1 : ℝ) 2).sample id) := (gaussian_mono 1 2 (by norm_num) id).2.1 strictMono_id
